@@ -147,6 +147,9 @@ def gen_case(rng, idx: int):
     for _ in range(rng.randrange(0, 8)):
         ext = rng.choice(list(EXT))
         n = word() + ext
+        if ext and EXT[ext][1] and rng.random() < 0.2:
+            # the extension text occurs twice: only the final one is the extension
+            n = n + rng.choice([".old", ".v2", ""]) + ext
         f = {"ext": ext}
         data = b"data of " + n.encode() + b"\n"
         if ext == ".txt" and rng.random() < 0.15:
